@@ -393,6 +393,11 @@ TEXTS = [
     ('wb_action_named_like_wf', 'version: "2.0"\nname: wb\nactions:\n  x:\n    base: std.echo\n    base-input:\n      output: hi\nworkflows:\n  x:\n    tasks:\n      t:\n        action: std.noop\n'),
     ('wb_comments_and_blank', 'version: "2.0"\nname: wb\n\n# c0\nworkflows:\n\n  # c1\n  wf:\n# c2 at column 0\n    tasks:\n\n      t:\n        # c3\n        action: std.noop\n\n  wf2:\n    tasks:\n      t:\n        action: std.echo output=2\n'),
     ('wb_indent4', 'version: "2.0"\nname: wb\nworkflows:\n    wf:\n        tasks:\n            t:\n                action: std.noop\n    wf2:\n        tasks:\n            t:\n                action: std.echo output=2\n'),
+    ('nested_date_in_input_default', 'version: "2.0"\nwf:\n  input:\n  - xs:\n    - 2001-12-14\n  tasks:\n    t:\n      action: std.noop\n'),
+    ('nested_binary_in_input_default', 'version: "2.0"\nwf:\n  input:\n  - xs: {d: !!binary aGk=}\n  tasks:\n    t:\n      action: std.noop\n'),
+    ('nested_date_in_task_input', 'version: "2.0"\nwf:\n  tasks:\n    t:\n      action: std.echo\n      input:\n        output: [2001-12-14 10:00:00]\n'),
+    ('nested_date_in_action_base_input', 'version: "2.0"\na1:\n  base: std.echo\n  base-input:\n    output: [2001-12-14]\n'),
+    ('nested_set_in_vars', 'version: "2.0"\nwf:\n  vars:\n    v: [!!set {a, b}]\n  tasks:\n    t:\n      action: std.noop\n'),
     ('wb_multiline_string', 'version: "2.0"\nname: wb\nworkflows:\n  wf:\n    description: |\n      line one\n      wf2:\n      line three\n    tasks:\n      t:\n        action: std.noop\n  wf2:\n    tasks:\n      t:\n        action: std.echo output=2\n'),
 ]
 
